@@ -255,7 +255,11 @@ struct Cfg
 	typedef typename std::conditional<Include_, PT<Key_>, PT<> >::type P;
 	typedef typename std::conditional<Include_, Fam<Key_>, Fam<> >::type F;
 	typedef typename OrderList<Order_, P>::type PL;
-	struct Pol
+	// exclude-event configurations use a getEvent policy that takes the listener arguments BY VALUE: the library must hand it
+	// lvalues (copies), never forward the caller's rvalues into it - the listeners still need them intact
+	struct NoGetEvent {};
+	struct ByValueGetEvent { template <typename ...A> static Key_ getEvent(const Key_ & k, A...) { return k; } };
+	struct Pol : std::conditional<Include_, NoGetEvent, ByValueGetEvent>::type
 	{
 		typedef Thr_ Threading;
 		typedef typename std::conditional<Include_, eventpp::ArgumentPassingIncludeEvent, eventpp::ArgumentPassingExcludeEvent>::type ArgumentPassingMode;
